@@ -6,10 +6,14 @@
    theorem quantifies, so "every read chunking" is "every script".
 
    PROVED IN FULL (all scripts, all (cap(buf), maxSize) incl. 0 / negative / absent, both entry points,
-   every early stop): C20_no_panic, C20_bounded_read (+ _step), C20_fuel_ok via the same statement.
-   PROVED IN PART: C20_intact - see the comment at C20_tokens_complete_partial. *)
-From GoSse Require Import Base Lines FieldParser Whatwg WhatwgLines Split Scanner Reader ReadLoop
-     SplitProofs ScannerProofs ParserSizeProofs RunParse.
+   every early stop): C20_no_panic, C20_bounded_read (+ _step), C20_fuel_ok via the same statement;
+   C20_intact (no size hypothesis: the whole interpretation, or the specification's yields up to an oversized group
+   followed by ErrTooLong - never a truncated or partial event), C20_fits_complete / C20_fits_no_toolong_points /
+   C20_fits_parser_err (fitsb L s -> no ErrTooLong), C20_parser_fields_gen, C20_scan_which.
+   The one-byte CR|LF slack between "fits" and "does not fit" is stated at C20_intact. *)
+From GoSse Require Import Base Lines FieldParser Whatwg WhatwgLines Split Scanner Reader ReadLoop Yields
+     LineStepProofs ReadLoopProofs SplitProofs ScannerProofs PathProofs ParserSizeProofs RunParse
+     GroupProofs ScanMoreProofs ParserFieldsProofs ParserTopProofs TooLongProofs.
 Local Open Scope nat_scope.
 
 (* No Panic outcome is reachable - neither ErrAdvanceTooFar (a slice bound) nor bufio's "too many empty
@@ -57,17 +61,71 @@ Proof. exact split_func_tok. Qed.
 Theorem C20_split_fuel_ok : forall data at_eof, split_func data at_eof <> SplitOutOfFuel.
 Proof. exact split_func_fuel_ok. Qed.
 
-(* C20_intact, full statement (NOT proved in this form):
-     forall en bc id chunks e stop, fitsb (bound_of en bc) (concat chunks) = true ->
-       fst (fst (read_run en bc id chunks e stop)) = firstn' stop (vis (interp mode id (concat chunks) e))
-     and, without the hypothesis, the yields are a prefix of the specification's followed by TooLong.
-   Proved part: every token the scanner hands out while input remains (in the buffer or in the reader)
-   consists of complete lines and ends with a blank line - the field parser is never given a truncated
-   event; ErrTooLong comes from a Scan call that hands out no token and leaves the split state untouched
-   (C20_scan, ScanFalse clause).  Missing: (1) the composition of Parser.Next with the read loop at the
-   level of fields (the same lemma C01 misses, see props/C01.v), (2) "fitsb L s -> no ErrTooLong": that
-   splitFunc answers SplitMore only on data holding no complete group (the converse direction of
-   split_func_shape).  Both are covered on the real code by the oracle holds_parse_c20. *)
+(* C20_intact, in full.  For every entry point, buffer configuration, initial ID, reader script, ending (not "read
+   error io.EOF") and stop position - WITHOUT any hypothesis on sizes - the model of sse.Read / Connection.read
+   yields
+     either the whole interpretation firstn' stop (vis (interp mode id (concat chunks) e)) - and then every group fits
+        the limit in the generous reading (may_complete, the oracle's own definition) -
+     or, for an offset off in toolong_points L (stream_needs (concat chunks)), the specification's yields for the
+        stream up to off, followed by ErrTooLong:
+        firstn' stop (vis (snd (run_lines mode (w_init id) (fst (wlines (strip_bom (firstn off stream))))) ++ [YErr ETooLong])),
+   and ends normally.  So ErrTooLong is never accompanied by a partial or truncated event, and everything before
+   the oversized group is delivered intact.  [toolong_points] (RunParse.v, the oracle's own definition) lists the
+   offsets [start] = end of a completed group (or 0) such that every earlier group fits in the generous reading
+   and the group that starts there (with the blank lines before it; for the last entry: the rest of the stream
+   plus one byte) exceeds L in the strict reading.  Strict / generous differ by ONE byte exactly when the blank line
+   that completed the previous group is CR LF: splitFunc takes the LF together with the group when it is already in
+   the buffer and otherwise leaves it to be skipped by the next call, which depends on the read segmentation (the
+   code really behaves so; both are legitimate).  This is the only slack: a group that fits strictly is always
+   delivered (C20_fits_complete / C20_fits_no_toolong_points), one that does not fit generously never is (the
+   first disjunct carries may_complete).  The statement is exactly the last conjunct of the oracle holds_parse_c20. *)
+Theorem C20_intact :
+  forall en bc last_id chunks e stop, ending_ok e ->
+    (may_complete (bound_of en bc) (concat chunks) = true /\
+     fst (read_run en bc last_id chunks e stop)
+     = (firstn' stop (vis (en_conn en) (interp (mode_for (en_conn en)) last_id (concat chunks) e)), EndNormal))
+    \/ exists off, In off (toolong_points (bound_of en bc) (stream_needs (concat chunks))) /\
+         fst (read_run en bc last_id chunks e stop)
+         = (firstn' stop (vis (en_conn en)
+              (snd (run_lines (mode_for (en_conn en)) (w_init last_id)
+                              (fst (wlines (strip_bom (firstn (N.to_nat off) (concat chunks))))))
+               ++ [YErr ETooLong])), EndNormal).
+Proof. exact read_run_gen. Qed.
+
+(* fitsb L s -> no ErrTooLong, three ways: there is no toolong point; the run is the whole interpretation
+   (= C01_read / C01_connection); Parser.Err() after the last field is the specification's end condition,
+   which is ErrTooLong only if that is what the reader itself failed with *)
+Theorem C20_fits_no_toolong_points :
+  forall L s, fitsb L s = true -> toolong_points L (stream_needs s) = [].
+Proof. exact fits_no_toolong_points. Qed.
+
+Theorem C20_fits_complete :
+  forall en bc last_id chunks e stop, ending_ok e -> fitsb (bound_of en bc) (concat chunks) = true ->
+    fst (read_run en bc last_id chunks e stop)
+    = (firstn' stop (vis (en_conn en) (interp (mode_for (en_conn en)) last_id (concat chunks) e)), EndNormal).
+Proof. exact read_run_fits. Qed.
+
+Theorem C20_fits_parser_err :
+  forall en bc chunks e, ending_ok e -> fitsb (bound_of en bc) (concat chunks) = true ->
+    exists fs tl, pf_run (make_parser en bc (mkrd chunks e 0)) fs (end_err tl e) /\
+                  (end_err tl e = Some ETooLong -> e = ReadError ETooLong).
+Proof. exact parser_err_fits. Qed.
+
+(* at the level of the parser: Parser.Next either hands out fields that interpret to the whole stream, or the
+   fields of complete tokens that consume a prefix P (each token cut by splitFunc from at most L buffered bytes and
+   ending with a blank line), after which the first L bytes of the rest are buffered, splitFunc finds no complete
+   group in them (tpath ... toolong_at) and Parser.Err() = ErrTooLong *)
+Theorem C20_parser_fields_gen :
+  forall en bc chunks e, ending_ok e -> top_result en bc chunks e.
+Proof. exact parser_fields_gen. Qed.
+
+(* when exactly one Scan call reports ErrTooLong (and which token it cuts otherwise) *)
+Theorem C20_scan_which :
+  forall B st s r, sc_inv B s r -> sc_inv2 B s -> scan_post2 B st s r (scan parser_split st s r).
+Proof. exact scan_spec2. Qed.
+
+(* the earlier partial statement, kept: every token handed out while input remains consists of complete lines and
+   ends with a blank line *)
 Theorem C20_tokens_complete_partial :
   forall data at_eof adv tok, split_func data at_eof = SplitTok adv tok ->
     adv < length data \/ at_eof = false -> exists ls, wlines tok = (ls ++ [[]], []).
@@ -82,6 +140,27 @@ Example C20_ex_limit :
   let r9 := read_run EntryRead (mkbc false 0 9) [] [ex_line] CleanEOF None in
   fst (fst r8) = [YErr ETooLong] /\ rd_pulled (p_rd (snd r8)) = 8%N /\ bound_of EntryRead (mkbc false 0 8) = 8%N /\
   fst (fst r9) = [YEv (mkev [] [] [97%N])] /\ snd (fst r9) = EndNormal.
+Proof. vm_compute. repeat split. Qed.
+
+(* C20_intact's second disjunct on a concrete script: a 9-byte group "data: a\n\n", then a group that exceeds the
+   limit 12; the first event is delivered intact, then ErrTooLong, nothing of the second group; 9 is the toolong
+   point, and the spec side of the disjunct evaluates to the same yields.  With "\r\n" as the blank line the
+   point is the early end 10 although the code took the LF along (the slack), byte-at-a-time or whole. *)
+Definition ex_big : bytes := [100;97;116;97;58;32;97;97;97;97;97;97;97;10;10]%N.   (* "data: aaaaaaa\n\n", 15 bytes *)
+Example C20_ex_intact :
+  let s := ex_line ++ [10%N] ++ ex_big in
+  let r := read_run EntryRead (mkbc false 0 12) [] [s] CleanEOF None in
+  fitsb 12 s = false /\ may_complete 12 s = false /\ toolong_points 12 (stream_needs s) = [9%N] /\
+  fst r = ([YEv (mkev [] [] [97%N]); YErr ETooLong], EndNormal) /\
+  snd (run_lines gosse_read (w_init []) (fst (wlines (strip_bom (firstn 9 s))))) ++ [YErr ETooLong]
+  = [YEv (mkev [] [] [97%N]); YErr ETooLong].
+Proof. vm_compute. repeat split. Qed.
+Example C20_ex_intact_crlf :
+  let s := [100;97;116;97;58;32;97;13;10;13;10]%N ++ ex_big in
+  toolong_points 12 (stream_needs s) = [10%N] /\
+  fst (read_run EntryRead (mkbc false 0 12) [] [s] CleanEOF None) = ([YEv (mkev [] [] [97%N]); YErr ETooLong], EndNormal) /\
+  fst (read_run EntryRead (mkbc false 0 12) [] (map (fun b => [b]) s) CleanEOF None) = ([YEv (mkev [] [] [97%N]); YErr ETooLong], EndNormal) /\
+  snd (run_lines gosse_read (w_init []) (fst (wlines (strip_bom (firstn 10 s))))) = [YEv (mkev [] [] [97%N])].
 Proof. vm_compute. repeat split. Qed.
 
 (* endless blank lines against a 16-byte Connection buffer with maxSize 0: refused after 16 bytes, byte-at-a-time *)
